@@ -517,7 +517,6 @@ def renderDom (cfg : Cfg) (d : Deco) (width : Nat) (useDoc : Bool) (agentCss use
     | some t => match Css.doAddCss t with
       | .ok rs => .ok (base ++ rs)
       | .err => .error .cssErr
-      | .panic => .error (.panic "css parser")
       | .hang => .error (.hang "css parser")
   match addTo (if cfg.decorate then decorateRules else []) agentCss with
   | .error o => o
@@ -532,7 +531,6 @@ def renderDom (cfg : Cfg) (d : Deco) (width : Nat) (useDoc : Bool) (agentCss use
       | .ok rs => match Css.doAddCss (t.map fun c => Char.ofNat c.cp) with
         | .ok r => .ok (rs ++ r)
         | .err => .ok rs                       -- document CSS parse errors are ignored
-        | .panic => .error (.panic "css parser (document)")
         | .hang => .error (.hang "css parser (document)")) (.ok [])
   match docRules with
   | .error o => o
